@@ -32,6 +32,7 @@ import (
 type Param struct {
 	// Kind: plain | body | validBody | bodyValid | path | valid, and (added later, see paramPrefix)
 	// bodyRequired | bodyThenFinal | finalThenBody | pathMarker | requestParam | header
+	// ... and (checklist audit) part | attribute | cookie | model: further Spring parameter annotations, none a body
 	Kind string `json:"kind"`
 	Type string `json:"type"`
 	Name string `json:"name"`
@@ -59,6 +60,12 @@ type Method struct {
 	Body        string   `json:"body,omitempty"`        // "" | calls | lambda | anonymous | locals
 	SameLine    bool     `json:"sameLine,omitempty"`    // annotations and signature on one line
 	FieldBefore string   `json:"fieldBefore,omitempty"` // a field declaration (with its annotations) written before this method
+	// checklist audit (zero value = the plain variant)
+	Varargs     string `json:"varargs,omitempty"`     // a variable-arity last parameter, never a body: plain `String... tags` | requestParam `@RequestParam String... tags`
+	TypeParams  string `json:"typeParams,omitempty"`  // generic method: <T> | <T extends Comparable<T>> written before the return type
+	AnnLayout   string `json:"annLayout,omitempty"`   // layout of the mapping annotation: spaced | multiline | comments
+	ParamLayout string `json:"paramLayout,omitempty"` // multiline: one parameter per line | blank: blanks inside the parentheses
+	Doc         bool   `json:"doc,omitempty"`         // Javadoc with annotation-like text before, block comment after the annotations
 }
 
 type Class struct {
@@ -87,6 +94,12 @@ type Class struct {
 	Implements    string   `json:"implements,omitempty"`
 	Imports       []string `json:"imports,omitempty"` // further single-type imports
 	Dto           string   `json:"dto,omitempty"`     // "" | before | after: a second, package-private class in the same file
+	// checklist audit (zero value = the plain variant); Kind also takes enum | annotation (never controllers)
+	CRLF        bool   `json:"crlf,omitempty"`        // lines end in \r\n
+	Edge        string `json:"edge,omitempty"`        // noFinalNewline | leadingBlankLines | trailingBlanks
+	LongLine    int    `json:"longLine,omitempty"`    // a comment line of this many bytes in the class body
+	ImportStyle string `json:"importStyle,omitempty"` // explicit | none | duplicate (default: the wildcard import)
+	BaseLayout  string `json:"baseLayout,omitempty"`  // layout of the class-level mapping: spaced | multiline | comments
 }
 
 type Case struct {
@@ -98,6 +111,12 @@ type Case struct {
 	Prefixes []string `json:"prefixes,omitempty"` // prefixes for FilterApiByPrefix (api) / the first one for `coca api -a` (cli)
 	Flags    []string `json:"flags,omitempty"`    // further options of `coca api` (cli)
 	Seq      []int    `json:"seq,omitempty"`      // sub-check seq: projects scanned one after the other in one process (0 = whole project, k = Subs[k-1])
+	// checklist audit
+	Extras      []string `json:"extras,omitempty"`      // further files of the project that hold no class: keys of extraFiles
+	DirSlash    bool     `json:"dirSlash,omitempty"`    // the directory is passed with a trailing slash
+	CliSpelling string   `json:"cliSpelling,omitempty"` // long: --path DIR | longEq: --path=DIR (default: -p DIR)
+	CliRel      bool     `json:"cliRel,omitempty"`      // the directory is passed relative to the working directory
+	CliDep      bool     `json:"cliDep,omitempty"`      // the dependence file is named explicitly (its default path)
 }
 
 func (m Method) isHandler() bool {
@@ -122,6 +141,7 @@ var (
 	retTypes   = []string{"String", "void", "ResponseEntity<String>", "List<Item>", "int"}
 	verbs      = []string{"GET", "POST", "PUT", "DELETE"}
 	verbAnn    = map[string]string{"GET": "GetMapping", "POST": "PostMapping", "PUT": "PutMapping", "DELETE": "DeleteMapping"}
+	annLayouts = []string{"spaced", "multiline", "comments"}
 
 	// paths of the URI-template family: template variables, patterns and property placeholders at the beginning,
 	// at the end or as the whole of a path, with and without leading / trailing slash, and paths that begin and
@@ -148,7 +168,61 @@ var (
 	stereotypes = []string{"@Service", "@Component", "@ControllerAdvice", "@RestControllerAdvice", "@Repository", "@Configuration", "@FeignClient(\"/orders\")", "@ControllerAdvice(annotations = RestController.class)"}
 	fieldDecls  = []string{"@Autowired\nprivate OrderService svc%d;", "@Value(\"${app.path:/configured}\")\nprivate String conf%d;", "private static final String PATH%d = \"/constant\";", "@Resource(name = \"/res\") private Object res%d;"}
 	methodMods  = []string{"package", "protected", "public final", "public synchronized"}
+
+	// ---- checklist audit: pools of the shapes behind their own draws
+	// packages: one segment, a prefix and a longer variant of a pool package, segments with _ $ digits and
+	// non-ASCII letters, segments that resemble the directory names coca's file filter treats specially
+	// (src/test/java, testData), a segment equal to an annotation name, a very long package
+	extraPkgs = []string{"web", "com.acme", "com.acme.webx", "com.acme.web.v2", "com.acme.test.java.web", "com.acme.testdata", "org.shop.tests",
+		"com.acme_corp.$gen.v1_2", "com.acme.café", "org.shop.Controller", "a.b", strings.TrimSuffix(strings.Repeat("segment.", 24), ".")}
+	// class names: the words Test / Tests at the beginning, in the middle and in lower case at the end (the file
+	// filter drops *Test.java and *Tests.java: those stay out), $ _ digits, non-ASCII, one letter, very long
+	extraClassNames = []string{"Test%s", "Tests%s", "%sTestApi", "%sContest", "%sAttests", "Latest%s", "$%s", "%s$Proxy", "%s_2", "_%s", "%s2V10",
+		"Café%s", "注文%s", "%.1s", "%s" + strings.Repeat("OfTheVeryLongNamedKind", 5)}
+	// method names: one letter, $ _ digits, non-ASCII, words the listener treats specially elsewhere
+	extraMethodNames = []string{"x", "get", "value", "method", "path", "$find", "_save", "find_all", "trouvé", "検索", "RequestMapping", "GET", "requestBody", "main",
+		"find" + strings.Repeat("ByNameAndKind", 8)}
+	extraParamNames = []string{"value", "method", "body", "requestBody", "$p", "__", "élément", "this_", "p" + strings.Repeat("0", 60)}
+	// further body / parameter types: qualified, inner, annotated type arguments
+	extraBodyTypes = []string{"com.acme.dto.OrderDto", "Order.Dto", "java.util.List<com.acme.Item>", "List<@Valid OrderDto>", "byte[]", "Map.Entry<String, Item>", "T", "$Dto_1", "Café"}
+	extraRetTypes  = []string{"byte[]", "Map<String, List<Item>>", "ResponseEntity<?>", "com.acme.dto.OrderDto", "Mono<ResponseEntity<Void>>", "List<Item>[]"}
+	testLikePkgs   = []string{"com.acme.test.java.web", "com.acme.testdata", "org.shop.tests", "com.acme.src.test.javax", "com.acme.mytestDat", "test.java"}
+	// annotations whose names contain, begin or end with the names of the HTTP mapping annotations
+	lookalikeAnnotations = []string{"@PatchMapping(\"/patch\")", "@GetMappings(\"/plural\")", "@MyGetMapping(\"/custom\")", "@GetMappingDoc(\"/doc\")", "@RequestMappingInfo(value = \"/info\")",
+		"@Mapping(target = \"/m\", source = \"/s\")", "@XRequestMapping(value = \"/x\", method = RequestMethod.GET)", "@Getmapping(\"/case\")", "@PostMappingAudit", "@ApiResponses({@ApiResponse(code = 200, message = \"/ok\"), @ApiResponse(code = 404, message = \"/none\")})"}
+	lookalikeStereotypes = []string{"@RestControllerEndpoint(id = \"/ops\")", "@ControllerEndpoint(id = \"ops\")", "@Controllers", "@NotAController(\"/x\")", "@RestControllerAdvice(\"/adv\")"}
+	// parameters with other Spring annotations (names that share words with RequestBody)
+	otherParamKinds = map[string]string{"part": "@RequestPart(\"file\") ", "attribute": "@RequestAttribute(\"x\") ", "cookie": "@CookieValue(value = \"sid\", required = false) ", "model": "@ModelAttribute "}
+	// verbs that only @RequestMapping(method = ...) can express
+	otherVerbs = []string{"PATCH", "HEAD", "OPTIONS", "TRACE"}
+	// plain content that resembles the listener's own patterns
+	resemblingPaths = []string{"/users/@me", "/search?method=GET&value={v}", "/a//b", "/o'neil", "/RequestMethod.GET", "/value=/x", "/@GetMapping", "http://host:8080/abs", "/#frag", "/a;v=1/b", "/{a}{b}", "/ü"}
+	pairLikePaths   = []string{"/search?method=GET&value={v}", "/rpc;method=PUT", "/x?value=/y&method=DELETE", "/value=/x", "/method=POST", "/m?method={RequestMethod.GET}"}
+	blankPaths      = []string{"/a b", "/with  two", "/tab\tbed"}
+	// files of a project that hold no class
+	extraFiles = map[string]string{
+		".gitignore":                    "# build output\ntarget/\nbuild/\nout/\n*.class\n*.log\n!important.log\n.idea/\n*.iml\n*~\n/bin/\n\n*.java.orig\n",
+		"README.md":                     "# Shop\n\n```java\n@RestController\n@RequestMapping(\"/readme\")\npublic class Readme {\n    @GetMapping(\"/fake\")\n    public String fake() { return null; }\n}\n```\n",
+		"pom.xml":                       "<project><modelVersion>4.0.0</modelVersion><groupId>com.acme</groupId><artifactId>shop</artifactId><version>1</version></project>\n",
+		"docs/OrderController.java.txt": "@RestController\npublic class OrderController {\n    @GetMapping(\"/doc\")\n    public String doc() { return null; }\n}\n",
+		"backup/OldController.java.bak": "@RestController\npublic class OldController {\n    @GetMapping(\"/old\")\n    public String old() { return null; }\n}\n",
+		"src/main/resources/application.properties": "server.servlet.context-path=/ctx\napi.orders=/orders\n",
+		"package-info.java":                         "/** web layer, see @RestController */\n@NonNullApi\npackage com.acme.web;\n\nimport org.springframework.lang.NonNullApi;\n",
+		"aaa/package-info.java":                     "@RequestMapping(\"/of/the/package\")\npackage aaa;\n",
+		"java/notes.javax":                          "@RestController class Notes { @GetMapping(\"/n\") void n() {} }\n",
+		"ControllerTesting.kt":                      "@RestController\nclass K {\n    @GetMapping(\"/kt\")\n    fun k() = 1\n}\n",
+	}
+	extraFileNames = sortedKeys(extraFiles)
 )
+
+func sortedKeys(m map[string]string) []string {
+	var out []string
+	for k := range m {
+		out = append(out, k)
+	}
+	sort.Strings(out)
+	return out
+}
 
 // rarely draws true with probability 1/(k+1); shrinks to false
 func rarely(t *rapid.T, k int, label string) bool {
@@ -251,6 +325,15 @@ func genBase(t *rapid.T, commas bool) string {
 	return rapid.SampledFrom(baseWords).Draw(t, "base")
 }
 
+func isOtherVerb(v string) bool {
+	for _, o := range otherVerbs {
+		if v == o {
+			return true
+		}
+	}
+	return false
+}
+
 func isBodyKind(k string) bool {
 	switch k {
 	case "body", "validBody", "bodyValid", "bodyRequired", "bodyThenFinal", "finalThenBody":
@@ -266,6 +349,10 @@ func genMethod(t *rapid.T, name string, inController bool, commas bool) Method {
 		// a non-handler method carrying some other annotation (messaging, GraphQL, scheduling ...)
 		m.Form = "otherAnnotation"
 		m.Path = rapid.SampledFrom(otherAnnotations).Draw(t, "otherAnnotation")
+		if rarely(t, 2, "lookalikeAnnotation") {
+			// an annotation whose name contains, begins or ends with the name of an HTTP mapping annotation
+			m.Path = rapid.SampledFrom(lookalikeAnnotations).Draw(t, "lookalike")
+		}
 	case 0, 1:
 		m.Form = ""
 	case 2:
@@ -287,6 +374,18 @@ func genMethod(t *rapid.T, name string, inController bool, commas bool) Method {
 		m.Verb = rapid.SampledFrom(verbs).Draw(t, "verb")
 		if m.Form != "nopath" {
 			m.Path = genPath(t, commas)
+			if rarely(t, 9, "resemblingPath") {
+				// plain content that looks like syntax of the annotation or of a URI
+				pool := resemblingPaths
+				if commas {
+					pool = append(append([]string{}, resemblingPaths...), blankPaths...)
+				}
+				m.Path = rapid.SampledFrom(pool).Draw(t, "resembling")
+			}
+			if m.Form != "shorthand" && rarely(t, 4, "pairLikePath") {
+				// in the forms with named attributes: a path that holds text like `method=X` or `value=/y`
+				m.Path = rapid.SampledFrom(pairLikePaths).Draw(t, "pairLike")
+			}
 		}
 		switch m.Form {
 		case "requestValueFirst", "requestMethodFirst":
@@ -301,6 +400,10 @@ func genMethod(t *rapid.T, name string, inController bool, commas bool) Method {
 			if rarely(t, 2, "hasPair") {
 				m.Pair = rapid.SampledFrom(extraPairs).Draw(t, "pair")
 				m.PairPos = rapid.IntRange(0, 2).Draw(t, "pairPos")
+			}
+			if rarely(t, 5, "otherVerb") && !pbt.Excluded("request_method_other_verb") {
+				// a verb only @RequestMapping(method = ...) can express
+				m.Verb = rapid.SampledFrom(otherVerbs).Draw(t, "whichOtherVerb")
 			}
 		case "shorthandValuePair":
 			if rarely(t, 1, "hasPair") {
@@ -356,21 +459,57 @@ func genMethod(t *rapid.T, name string, inController bool, commas bool) Method {
 				hasBody = true
 				p.Kind = []string{"body", "validBody", "bodyValid", "bodyRequired", "bodyThenFinal", "finalThenBody"}[k-4]
 				p.Type = rapid.SampledFrom(bodyTypes).Draw(t, "btype")
+				if rarely(t, 6, "exoticBodyType") {
+					p.Type = rapid.SampledFrom(extraBodyTypes).Draw(t, "xbtype")
+				}
+			}
+		}
+		if p.Kind == "plain" && m.isHandler() && rarely(t, 7, "otherParamKind") {
+			// a parameter with another Spring annotation; none of them marks a body
+			p.Kind = rapid.SampledFrom([]string{"attribute", "cookie", "model", "part"}).Draw(t, "whichParamKind")
+			p.Type = map[string]string{"attribute": "String", "cookie": "String", "model": "OrderDto", "part": "MultipartFile"}[p.Kind]
+		}
+		if rarely(t, 9, "paramName") {
+			p.Name = rapid.SampledFrom(extraParamNames).Draw(t, "pname")
+			for _, q := range m.Params {
+				if q.Name == p.Name {
+					p.Name += fmt.Sprint(i)
+				}
 			}
 		}
 		m.Params = append(m.Params, p)
 	}
+	if rarely(t, 9, "varargs") {
+		m.Varargs = rapid.SampledFrom([]string{"plain", "requestParam"}).Draw(t, "varargsKind")
+	}
+	if rarely(t, 9, "exoticRet") {
+		m.Ret = rapid.SampledFrom(extraRetTypes).Draw(t, "xret")
+	}
+	if rarely(t, 11, "typeParams") {
+		m.TypeParams = rapid.SampledFrom([]string{"<T>", "<T extends Comparable<T>>", "<K, V>"}).Draw(t, "whichTypeParams")
+	}
+	if m.isHandler() && rarely(t, 4, "annLayout") {
+		m.AnnLayout = rapid.SampledFrom(annLayouts).Draw(t, "whichAnnLayout")
+	}
+	if rarely(t, 7, "paramLayout") {
+		m.ParamLayout = rapid.SampledFrom([]string{"multiline", "blank"}).Draw(t, "whichParamLayout")
+	}
+	m.Doc = rarely(t, 7, "doc")
 	// variations around the declaration; every draw shrinks to the plain variant
 	m.Before = someOf(t, methodExtras, 2, "before")
 	if m.Form != "" {
 		m.After = someOf(t, methodExtras, 2, "after")
+	}
+	if m.isHandler() && rarely(t, 11, "nestedAnnotationAfter") {
+		// an annotation that holds annotations
+		m.After = append(m.After, lookalikeAnnotations[len(lookalikeAnnotations)-1])
 	}
 	if rarely(t, 4, "hasMods") {
 		m.Mods = rapid.SampledFrom(methodMods).Draw(t, "mods")
 	}
 	m.Throws = rarely(t, 5, "throws")
 	if rarely(t, 3, "hasBody") {
-		m.Body = rapid.SampledFrom([]string{"calls", "lambda", "anonymous", "locals"}).Draw(t, "body")
+		m.Body = rapid.SampledFrom([]string{"calls", "lambda", "anonymous", "locals", "annotationText"}).Draw(t, "body")
 	}
 	m.SameLine = rarely(t, 6, "sameLine")
 	if rarely(t, 5, "fieldBefore") {
@@ -384,6 +523,9 @@ func signature(m Method) string {
 	for _, p := range m.Params {
 		ts = append(ts, noSpace(p.Type))
 	}
+	if m.Varargs != "" {
+		ts = append(ts, "String...")
+	}
 	return m.Name + "(" + strings.Join(ts, ",") + ")"
 }
 
@@ -394,12 +536,30 @@ func genCase(t *rapid.T) Case { return genCaseOpt(t, true) }
 // defined row there (and api.csv is not part of the property statement).
 func genCaseOpt(t *rapid.T, commas bool) Case {
 	n := rapid.IntRange(1, 6).Draw(t, "nClasses")
+	many := false
+	if rarely(t, 29, "manyClasses") {
+		// past the sizes at which the lists of files and of entries grow
+		n = rapid.IntRange(7, 14).Draw(t, "nManyClasses")
+		many = true
+	}
+	bigClass := -1
+	if !many && rarely(t, 24, "manyMethods") {
+		// one class with many methods
+		bigClass = rapid.IntRange(0, n-1).Draw(t, "classOfManyMethods")
+	}
 	var c Case
 	used := map[string]bool{}
 	for i := 0; i < n; i++ {
 		cl := Class{Pkg: rapid.SampledFrom(pkgs).Draw(t, "pkg")}
 		if rarely(t, 11, "defaultPackage") {
 			cl.Pkg = "" // a class of the unnamed package: no package declaration
+		}
+		if rarely(t, 7, "extraPkg") {
+			cl.Pkg = rapid.SampledFrom(extraPkgs).Draw(t, "xpkg")
+		}
+		if rarely(t, 11, "testLikePkg") {
+			// a package whose directory resembles the directories the file filter treats as test code
+			cl.Pkg = rapid.SampledFrom(testLikePkgs).Draw(t, "tpkg")
 		}
 		stem := rapid.SampledFrom(classStems).Draw(t, "stem")
 		kind := rapid.IntRange(0, 6).Draw(t, "classKind")
@@ -415,6 +575,14 @@ func genCaseOpt(t *rapid.T, commas bool) Case {
 			cl.Name = stem + "Operations"
 		default:
 			cl.Name = stem + "Service"
+			if rarely(t, 5, "otherTypeKind") {
+				// a type that is neither class nor interface
+				cl.Kind = rapid.SampledFrom([]string{"enum", "annotation"}).Draw(t, "whichTypeKind")
+				cl.Name = stem + map[string]string{"enum": "Status", "annotation": "Audited"}[cl.Kind]
+			}
+		}
+		if rarely(t, 7, "classNameShape") {
+			cl.Name = fmt.Sprintf(rapid.SampledFrom(extraClassNames).Draw(t, "nameShape"), cl.Name)
 		}
 		for used[cl.Pkg+"."+cl.Name] {
 			cl.Name += "X"
@@ -449,6 +617,10 @@ func genCaseOpt(t *rapid.T, commas bool) Case {
 			// a class that is not a controller: a stereotype of its own, now and then a class-level mapping
 			if rarely(t, 1, "hasStereotype") {
 				cl.Stereotype = rapid.SampledFrom(stereotypes).Draw(t, "stereotype")
+				if rarely(t, 3, "lookalikeStereotype") {
+					// an annotation whose name contains the name of a controller annotation
+					cl.Stereotype = rapid.SampledFrom(lookalikeStereotypes).Draw(t, "lookalikeStereotypeWhich")
+				}
 			}
 			if rarely(t, 3, "baseOfNonController") {
 				cl.BaseForm = rapid.SampledFrom([]string{"shorthand", "valuePair"}).Draw(t, "baseFormNC")
@@ -486,10 +658,35 @@ func genCaseOpt(t *rapid.T, commas bool) Case {
 		cl.Tabs = rapid.Bool().Draw(t, "tabs")
 		cl.Tight = rapid.IntRange(0, 3).Draw(t, "tight") == 3
 		cl.Comments = rapid.IntRange(0, 3).Draw(t, "comments") == 3
+		// text layout of the file
+		cl.CRLF = rarely(t, 7, "crlf")
+		if rarely(t, 7, "edge") {
+			cl.Edge = rapid.SampledFrom([]string{"noFinalNewline", "leadingBlankLines", "trailingBlanks"}).Draw(t, "whichEdge")
+		}
+		if rarely(t, 14, "longLine") {
+			cl.LongLine = rapid.SampledFrom([]int{5000, 5000, 70000}).Draw(t, "longLineBytes")
+		}
+		if rarely(t, 5, "importStyle") {
+			cl.ImportStyle = rapid.SampledFrom([]string{"explicit", "none", "duplicate"}).Draw(t, "whichImportStyle")
+		}
+		if cl.BaseForm != "" && rarely(t, 4, "baseLayout") {
+			cl.BaseLayout = rapid.SampledFrom(annLayouts).Draw(t, "whichBaseLayout")
+		}
 		nm := rapid.IntRange(0, 5).Draw(t, "nMethods")
+		if many {
+			nm = rapid.IntRange(0, 2).Draw(t, "nMethodsOfMany")
+		} else if i == bigClass {
+			nm = rapid.IntRange(6, 40).Draw(t, "nManyMethods")
+		}
+		if cl.Kind == "annotation" {
+			nm = 0
+		}
 		sigs := map[string]bool{}
 		for j := 0; j < nm; j++ {
-			m := genMethod(t, fmt.Sprintf("%s%d", []string{"find", "save", "remove", "list", "helper", "update"}[j], j), cl.Controller != "", commas)
+			m := genMethod(t, fmt.Sprintf("%s%d", []string{"find", "save", "remove", "list", "helper", "update"}[j%6], j), cl.Controller != "", commas)
+			if rarely(t, 9, "methodName") {
+				m.Name = rapid.SampledFrom(extraMethodNames).Draw(t, "mname")
+			}
 			if j > 0 && rarely(t, 4, "overload") {
 				// an overload of an earlier method of the class (another parameter list)
 				m.Name = cl.Methods[rapid.IntRange(0, j-1).Draw(t, "overloadOf")].Name
@@ -501,7 +698,7 @@ func genCaseOpt(t *rapid.T, commas bool) Case {
 					if m.Form == "nopath" {
 						m.Path = ""
 					}
-					if rapid.Bool().Draw(t, "twinVerb") {
+					if rapid.Bool().Draw(t, "twinVerb") && (!isOtherVerb(o.Verb) || strings.HasPrefix(m.Form, "request")) {
 						m.Verb = o.Verb
 					}
 				}
@@ -541,6 +738,18 @@ func genCaseOpt(t *rapid.T, commas bool) Case {
 		c.Subs = append(c.Subs, perm[:k])
 	}
 	c.Maven = rarely(t, 3, "maven")
+	// further files that hold no class, and the spelling of the directory
+	for i, nx := 0, rapid.IntRange(0, 7).Draw(t, "nExtras")-4; i < nx; i++ {
+		x := rapid.SampledFrom(extraFileNames).Draw(t, "extra")
+		dup := false
+		for _, y := range c.Extras {
+			dup = dup || x == y
+		}
+		if !dup {
+			c.Extras = append(c.Extras, x)
+		}
+	}
+	c.DirSlash = rarely(t, 5, "dirSlash")
 	// prefixes for the aggregate filter: mostly beginnings of URIs that exist in the project
 	var pool []string
 	for _, cl := range c.Classes {
@@ -565,6 +774,11 @@ func genCliCase(t *rapid.T) Case {
 			c.Flags = append(c.Flags, f)
 		}
 	}
+	if rarely(t, 2, "cliSpelling") {
+		c.CliSpelling = rapid.SampledFrom([]string{"long", "longEq"}).Draw(t, "whichCliSpelling")
+	}
+	c.CliRel = rarely(t, 3, "cliRel")
+	c.CliDep = rarely(t, 3, "cliDep")
 	return c
 }
 
@@ -615,11 +829,48 @@ func paramPrefix(p Param) string {
 	case "valid":
 		return "@Valid "
 	}
-	return ""
+	return otherParamKinds[p.Kind]
+}
+
+// layoutAnnotation writes @name(parts...) in one of the layouts: "" plain, spaced (blanks inside the
+// parentheses and around the commas), multiline (one element per line, a line comment behind the first),
+// comments (block comments between the tokens). ind is the indentation of the line the annotation starts on.
+func layoutAnnotation(name string, parts []string, layout, ind string) string {
+	switch layout {
+	case "spaced":
+		if len(parts) == 0 {
+			return "@" + name + "( )"
+		}
+		return "@" + name + "(  " + strings.Join(parts, " ,  ") + " )"
+	case "multiline":
+		if len(parts) == 0 {
+			return "@" + name + "(\n" + ind + ")"
+		}
+		var sb strings.Builder
+		sb.WriteString("@" + name + "(\n")
+		for i, p := range parts {
+			sb.WriteString(ind + "        " + p)
+			if i < len(parts)-1 {
+				sb.WriteString(",")
+			}
+			if i == 0 {
+				sb.WriteString(" // @PostMapping(\"/in/a/comment\")")
+			}
+			sb.WriteString("\n")
+		}
+		sb.WriteString(ind + ")")
+		return sb.String()
+	case "comments":
+		if len(parts) == 0 {
+			return "@" + name + "(/* no path */)"
+		}
+		return "@" + name + " /* mapping */ (/* value = \"/commented\" */ " + strings.Join(parts, " /* , */ , ") + " /* ) */)"
+	}
+	return "@" + name + "(" + strings.Join(parts, ", ") + ")"
 }
 
 // mappingAnnotation prints the mapping annotation of a handler method.
-func mappingAnnotation(m Method, eq string) string {
+func mappingAnnotation(m Method, eq, ind string) string {
 	ann := verbAnn[m.Verb]
 	val := "value" + eq + "\"" + m.Path + "\""
 	verb := "RequestMethod." + m.Verb
@@ -633,11 +884,11 @@ func mappingAnnotation(m Method, eq string) string {
 	var parts []string
 	switch m.Form {
 	case "shorthand":
-		return "@" + ann + "(\"" + m.Path + "\")"
+		return layoutAnnotation(ann, []string{"\"" + m.Path + "\""}, m.AnnLayout, ind)
 	case "nopath":
 		if m.Pair == "" {
 			if m.Parens {
-				return "@" + ann + "()"
+				return layoutAnnotation(ann, nil, m.AnnLayout, ind)
 			}
 			return "@" + ann
 		}
@@ -660,7 +911,7 @@ func mappingAnnotation(m Method, eq string) string {
 			parts = append(parts, m.Pair)
 		}
 	}
-	return "@" + ann + "(" + strings.Join(parts, ", ") + ")"
+	return layoutAnnotation(ann, parts, m.AnnLayout, ind)
 }
 
 func bodyLines(m Method) []string {
@@ -673,9 +924,14 @@ func bodyLines(m Method) []string {
 		return []string{"Runnable task = new Runnable() {", "    @Override", "    public void run() {", "        log(\"/run\");", "    }", "};", "task.run();"}
 	case "locals":
 		return []string{"@SuppressWarnings(\"unchecked\") final List<Item> found = (List<Item>) cache.get(\"/key\");", "if (found == null) {", "    throw new IllegalStateException(\"/missing\");", "}"}
+	case "annotationText":
+		// annotation-like text as plain content: in a string literal, in a char-free comment, as a label
+		return []string{"String doc = \"@RestController @RequestMapping(\\\"/fake\\\") @GetMapping(\\\"/text\\\")\";", "// @PostMapping(\"/in/a/line/comment\")", "/* @RequestMapping(value = \"/in/a/block\", method = RequestMethod.PUT)", "   public void fake(@RequestBody Fake fake) { } */", "log(doc + '\"' + \"value = \\\"/v\\\"\");"}
 	}
 	return nil
 }
+
+var springAnnotationImports = []string{"DeleteMapping", "GetMapping", "PathVariable", "PostMapping", "PutMapping", "RequestBody", "RequestHeader", "RequestMapping", "RequestMethod", "RequestParam", "RestController"}
 
 func render(cl Class) string {
 	var sb strings.Builder
@@ -687,15 +943,36 @@ func render(cl Class) string {
 	if cl.Tight {
 		eq = "="
 	}
+	if cl.Edge == "leadingBlankLines" {
+		sb.WriteString("\n\n   \n")
+	}
 	if cl.Pkg != "" {
 		sb.WriteString("package " + cl.Pkg + ";\n\n")
 	}
-	sb.WriteString("import java.util.List;\nimport java.util.Map;\nimport org.springframework.web.bind.annotation.*;\n")
+	wildcard := "import org.springframework.web.bind.annotation.*;\n"
+	explicit := "import org.springframework.stereotype.Controller;\n"
+	for _, a := range springAnnotationImports {
+		explicit += "import org.springframework.web.bind.annotation." + a + ";\n"
+	}
+	sb.WriteString("import java.util.List;\nimport java.util.Map;\n")
+	switch cl.ImportStyle {
+	case "explicit":
+		sb.WriteString(explicit)
+	case "none":
+	case "duplicate":
+		sb.WriteString(wildcard + explicit + "import java.util.List;\n" + wildcard)
+	default:
+		sb.WriteString(wildcard)
+	}
 	for _, imp := range cl.Imports {
 		sb.WriteString("import " + imp + ";\n")
 	}
 	for _, m := range cl.Methods {
 		if m.VerbForm == "static" {
+			if cl.ImportStyle == "explicit" {
+				sb.WriteString("import static org.springframework.web.bind.annotation.RequestMethod." + m.Verb + ";\n")
+				continue
+			}
 			sb.WriteString("import static org.springframework.web.bind.annotation.RequestMethod.*;\n")
 			break
 		}
@@ -721,7 +998,7 @@ func render(cl Class) string {
 	}
 	switch cl.BaseForm {
 	case "shorthand":
-		sb.WriteString("@RequestMapping(\"" + cl.Base + "\")\n")
+		sb.WriteString(layoutAnnotation("RequestMapping", []string{"\"" + cl.Base + "\""}, cl.BaseLayout, "") + "\n")
 	case "valuePair":
 		parts := []string{"value" + eq + "\"" + cl.Base + "\""}
 		if cl.BasePair != "" {
@@ -731,9 +1008,9 @@ func render(cl Class) string {
 				parts = append(parts, cl.BasePair)
 			}
 		}
-		sb.WriteString("@RequestMapping(" + strings.Join(parts, ", ") + ")\n")
+		sb.WriteString(layoutAnnotation("RequestMapping", parts, cl.BaseLayout, "") + "\n")
 	case "pairOnly":
-		sb.WriteString("@RequestMapping(" + cl.BasePair + ")\n")
+		sb.WriteString(layoutAnnotation("RequestMapping", []string{cl.BasePair}, cl.BaseLayout, "") + "\n")
 	}
 	for _, a := range cl.Post {
 		sb.WriteString(a + "\n")
@@ -747,9 +1024,16 @@ func render(cl Class) string {
 		mods = cl.ClassMods + " "
 	}
 	isInterface := cl.Kind == "interface"
-	if isInterface {
+	switch cl.Kind {
+	case "interface":
 		sb.WriteString("public interface " + cl.Name)
-	} else {
+	case "enum":
+		sb.WriteString("public enum " + cl.Name)
+	case "annotation":
+		// an annotation type of the project: its elements are named like the attributes of the mapping annotations
+		sb.WriteString("public @interface " + cl.Name + " {\n" + ind + "String value() default \"/audited\";\n\n" + ind + "String[] path() default {};\n\n" + ind + "RequestMethod[] method() default {RequestMethod.GET};\n}\n")
+		return finishText(cl, sb.String())
+	default:
 		sb.WriteString(mods + "class " + cl.Name)
 	}
 	if cl.Extends != "" {
@@ -759,6 +1043,12 @@ func render(cl Class) string {
 		sb.WriteString(" implements " + cl.Implements)
 	}
 	sb.WriteString(" {\n")
+	if cl.Kind == "enum" {
+		sb.WriteString(ind + "NEW, PAID(\"/paid\"), @Deprecated GONE;\n\n")
+	}
+	if cl.LongLine > 0 {
+		sb.WriteString(ind + "// " + strings.Repeat("long ", cl.LongLine/5) + "\n")
+	}
 	if cl.Field {
 		sb.WriteString(ind + "private final Helper helper;\n\n")
 	}
@@ -775,6 +1065,9 @@ func render(cl Class) string {
 		if cl.Comments {
 			sb.WriteString(ind + "// " + m.Name + "\n")
 		}
+		if m.Doc {
+			sb.WriteString(ind + "/**\n" + ind + " * Not a mapping: @GetMapping(\"/in/javadoc\") {@link RequestMapping}, \"quoted\".\n" + ind + " * @RequestMapping(value = \"/doc\", method = RequestMethod.POST)\n" + ind + " * @return nothing\n" + ind + " */\n")
+		}
 		var anns []string
 		anns = append(anns, m.Before...)
 		switch m.Form {
@@ -784,12 +1077,22 @@ func render(cl Class) string {
 		case "otherAnnotation":
 			anns = append(anns, m.Path)
 		default:
-			anns = append(anns, mappingAnnotation(m, eq))
+			anns = append(anns, mappingAnnotation(m, eq, ind))
 		}
 		anns = append(anns, m.After...)
+		if m.Doc {
+			// a block comment between the annotations and the signature
+			anns = append(anns, "/* @PostMapping(\"/between\") */")
+		}
 		var ps []string
 		for _, p := range m.Params {
 			ps = append(ps, paramPrefix(p)+p.Type+" "+p.Name)
+		}
+		switch m.Varargs {
+		case "plain":
+			ps = append(ps, "String... tags")
+		case "requestParam":
+			ps = append(ps, "@RequestParam(\"tags\") String... tags")
 		}
 		mmods := "public "
 		switch m.Mods {
@@ -802,7 +1105,21 @@ func render(cl Class) string {
 		if isInterface {
 			mmods = ""
 		}
-		sig := mmods + m.Ret + " " + m.Name + "(" + strings.Join(ps, ", ") + ")"
+		if m.TypeParams != "" {
+			mmods += m.TypeParams + " "
+		}
+		params := strings.Join(ps, ", ")
+		switch m.ParamLayout {
+		case "multiline":
+			if len(ps) > 0 {
+				params = "\n" + ind + ind + ind + strings.Join(ps, ",\n"+ind+ind+ind) + "\n" + ind
+			} else {
+				params = "\n" + ind
+			}
+		case "blank":
+			params = " " + strings.Join(ps, " , ") + " "
+		}
+		sig := mmods + m.Ret + " " + m.Name + "(" + params + ")"
 		if m.Throws {
 			sig += " throws java.io.IOException, IllegalStateException"
 		}
@@ -836,7 +1153,21 @@ func render(cl Class) string {
 	if cl.Dto == "after" {
 		sb.WriteString("\n" + dto)
 	}
-	return sb.String()
+	return finishText(cl, sb.String())
+}
+
+// finishText applies the layout of the file as a whole: how it ends, how its lines end
+func finishText(cl Class, text string) string {
+	switch cl.Edge {
+	case "noFinalNewline":
+		text = strings.TrimRight(text, "\n")
+	case "trailingBlanks":
+		text += "\n   \n\t\n\n"
+	}
+	if cl.CRLF {
+		text = strings.ReplaceAll(text, "\n", "\r\n")
+	}
+	return text
 }
 
 type errCounter struct {
@@ -922,6 +1253,15 @@ func fileTree(c Case, seq []int) map[string]string {
 	for pos, idx := range seq {
 		files[fileName(c, pos, idx)] = render(c.Classes[idx])
 	}
+	for _, x := range c.Extras {
+		files[x] = extraFiles[x]
+		if x == ".gitignore" {
+			// ... and files it ignores (none of them Java source)
+			files["debug.log"] = "GET /logged\n"
+			files["target/classes/com/acme/Old.class"] = "\xca\xfe\xba\xbe"
+			files["zz.iml"] = "<module/>\n"
+		}
+	}
 	return files
 }
 
@@ -930,6 +1270,10 @@ func fileName(c Case, pos, idx int) string {
 	cl := c.Classes[idx]
 	if c.Maven {
 		return filepath.ToSlash(filepath.Join(fmt.Sprintf("m%02d/src/main/java", pos), strings.ReplaceAll(cl.Pkg, ".", "/"), cl.Name+".java"))
+	}
+	if inPool(cl.Pkg, extraPkgs) || inPool(cl.Pkg, testLikePkgs) {
+		// the packages of the checklist audit are laid out as directories in the flat layout too
+		return filepath.ToSlash(filepath.Join(fmt.Sprintf("f%02d", pos), strings.ReplaceAll(cl.Pkg, ".", "/"), cl.Name+".java"))
 	}
 	return fmt.Sprintf("f%02d_%s.java", pos, cl.Name)
 }
@@ -968,14 +1312,45 @@ func pipeline(dir string) ([]api_domain.RestAPI, string) {
 
 // scanCLI: `coca analysis` + `coca api -f` (plus the drawn options) in a fresh working directory; the API
 // list is coca_reporter/apis.json, and coca_reporter/api.csv must show that list row by row.
-func scanCLI(dir string, flags []string, prefix string) ([]Entry, string) {
+// cliTimeout: a sub-process that did not end within the time limit of cli.Run says nothing about the API list
+// (the statement does not speak of running time): the case is counted as skipped, never judged
+const cliTimeout = "CLI-TIMEOUT"
+
+func scanCLI(dir string, c Case, prefix string) ([]Entry, string) {
+	flags := c.Flags
 	cwd := filepath.Join(dir, "_work")
 	_ = os.MkdirAll(cwd, 0755)
 	src := filepath.Join(dir, "src")
-	if r, err := cli.Run("coca", cwd, nil, "analysis", "-p", src); err != nil || r.ExitCode != 0 || r.TimedOut {
-		return nil, fmt.Sprintf("`coca analysis -p DIR` failed: %v exit=%d\n%s%s", err, r.ExitCode, tail(r.Stdout), tail(r.Stderr))
+	if c.CliRel {
+		src = filepath.Join("..", "src") // relative to the working directory
 	}
-	args := []string{"api", "-f", "-p", src}
+	if c.DirSlash {
+		src += "/"
+	}
+	// one option in the drawn spelling: -p DIR | --path DIR | --path=DIR
+	opt := func(short, long, val string) []string {
+		name := "-" + short
+		if c.CliSpelling != "" {
+			name = "--" + long
+		}
+		switch {
+		case val == "":
+			return []string{name}
+		case c.CliSpelling == "longEq":
+			return []string{name + "=" + val}
+		}
+		return []string{name, val}
+	}
+	show := func(args []string) string {
+		return "`coca " + strings.ReplaceAll(strings.Join(args, " "), src, "DIR") + "`"
+	}
+	analysis := append([]string{"analysis"}, opt("p", "path", src)...)
+	if r, err := cli.Run("coca", cwd, nil, analysis...); err == nil && r.TimedOut {
+		return nil, cliTimeout
+	} else if err != nil || r.ExitCode != 0 {
+		return nil, fmt.Sprintf("%s failed: %v exit=%d\n%s%s", show(analysis), err, r.ExitCode, tail(r.Stdout), tail(r.Stderr))
+	}
+	rest := opt("p", "path", src)
 	aggregate, removed := "", false
 	for _, f := range flags {
 		switch f {
@@ -984,16 +1359,24 @@ func scanCLI(dir string, flags []string, prefix string) ([]Entry, string) {
 			if aggregate == "" {
 				aggregate = "/a"
 			}
-			args = append(args, "-a", aggregate)
+			rest = append(rest, opt("a", "aggregate", aggregate)...)
 		case "-r":
 			removed = true
-			args = append(args, "-r", "com.acme")
-		case "-c", "-s":
-			args = append(args, f)
+			rest = append(rest, opt("r", "remove", "com.acme")...)
+		case "-c":
+			rest = append(rest, opt("c", "count", "")...)
+		case "-s":
+			rest = append(rest, opt("s", "sort", "")...)
 		}
 	}
-	shown := "`coca " + strings.Join(args[:3], " ") + " DIR " + strings.Join(args[4:], " ") + "`"
-	if r, err := cli.Run("coca", cwd, nil, args...); err != nil || r.ExitCode != 0 || r.TimedOut {
+	if c.CliDep {
+		rest = append(rest, opt("d", "dependence", filepath.Join("coca_reporter", "deps.json"))...)
+	}
+	args := append(append([]string{"api"}, opt("f", "force", "")...), rest...)
+	shown := show(args)
+	if r, err := cli.Run("coca", cwd, nil, args...); err == nil && r.TimedOut {
+		return nil, cliTimeout
+	} else if err != nil || r.ExitCode != 0 {
 		return nil, fmt.Sprintf("%s failed: %v exit=%d\n%s%s", shown, err, r.ExitCode, tail(r.Stdout), tail(r.Stderr))
 	}
 	raw, err := os.ReadFile(filepath.Join(cwd, "coca_reporter", "apis.json"))
@@ -1046,8 +1429,10 @@ func scanCLI(dir string, flags []string, prefix string) ([]Entry, string) {
 		}
 		// the same command once more in the same working directory, now without -f: the list is read back
 		// from coca_reporter/apis.json and must come out as it went in
-		again := append([]string{"api"}, args[2:]...)
-		if r, err := cli.Run("coca", cwd, nil, again...); err != nil || r.ExitCode != 0 || r.TimedOut {
+		again := append([]string{"api"}, rest...)
+		if r, err := cli.Run("coca", cwd, nil, again...); err == nil && r.TimedOut {
+			return nil, cliTimeout
+		} else if err != nil || r.ExitCode != 0 {
 			return nil, fmt.Sprintf("%s, then the same without -f: failed: %v exit=%d\n%s%s", shown, err, r.ExitCode, tail(r.Stdout), tail(r.Stderr))
 		}
 		var second []api_domain.RestAPI
@@ -1134,7 +1519,10 @@ func diff(want, got []string) string {
 func describe(c Case, seq []int) string {
 	var sb strings.Builder
 	for pos, idx := range seq {
-		sb.WriteString(fmt.Sprintf("--- %s ---\n%s", fileName(c, pos, idx), render(c.Classes[idx])))
+		sb.WriteString(fmt.Sprintf("--- %s ---\n%s", fileName(c, pos, idx), reLong.ReplaceAllString(render(c.Classes[idx]), "long ...(the word repeated)... ")))
+	}
+	if len(c.Extras) > 0 {
+		sb.WriteString(fmt.Sprintf("--- further files: %q ---\n", c.Extras))
 	}
 	return sb.String()
 }
@@ -1154,11 +1542,17 @@ func judge(c Case, seq []int, scan func(dir string) ([]Entry, string)) ([]Entry,
 	dir := cli.Scratch("c12-")
 	defer os.RemoveAll(dir)
 	files := fileTree(c, seq)
-	for _, text := range files {
-		mustParse(text)
+	for name, text := range files {
+		if strings.HasSuffix(name, ".java") {
+			mustParse(text)
+		}
 	}
 	cli.WriteTree(filepath.Join(dir, "src"), files)
-	got, msg := scan(filepath.Join(dir, "src"))
+	src := filepath.Join(dir, "src")
+	if c.DirSlash {
+		src += "/"
+	}
+	got, msg := scan(src)
 	if msg != "" {
 		// run-dependent parts removed: rapid shrinks only when a failure repeats verbatim
 		msg = reHex.ReplaceAllString(strings.ReplaceAll(msg, dir, "<scratch>"), "0x_")
@@ -1167,6 +1561,7 @@ func judge(c Case, seq []int, scan func(dir string) ([]Entry, string)) ([]Entry,
 	return got, ""
 }
 
+var reLong = regexp.MustCompile(`(long ){20,}`)
 var reHex = regexp.MustCompile(`\+?0x[0-9a-f]+\??`)
 
 func expectedOf(c Case, seq []int) []Entry {
@@ -1193,11 +1588,15 @@ func check(c Case, viaCLI bool) pbt.Verdict {
 		if len(c.Prefixes) > 0 {
 			prefix = c.Prefixes[0]
 		}
-		scan = func(src string) ([]Entry, string) { return scanCLI(filepath.Dir(src), c.Flags, prefix) }
+		scan = func(src string) ([]Entry, string) { return scanCLI(filepath.Dir(filepath.Clean(src)), c, prefix) }
 	}
 	// 1. the whole project against the expectation by construction
 	want := expectedOf(c, c.Order)
 	got, msg := judge(c, c.Order, scan)
+	if strings.HasPrefix(msg, cliTimeout) {
+		pbt.Count("cli_timeout", 1)
+		return pbt.Verdict{Skip: true}
+	}
 	if msg != "" {
 		return pbt.Fail("%s", msg)
 	}
@@ -1215,6 +1614,10 @@ func check(c Case, viaCLI bool) pbt.Verdict {
 	}
 	for _, seq := range subs {
 		subGot, msg := judge(c, seq, scan)
+		if strings.HasPrefix(msg, cliTimeout) {
+			pbt.Count("cli_timeout", 1)
+			return pbt.Verdict{Skip: true}
+		}
 		if msg != "" {
 			return pbt.Fail("sub-project %v: %s", seq, msg)
 		}
@@ -1243,11 +1646,16 @@ func checkSeq(c Case) pbt.Verdict {
 	var dirs []string
 	for k, seq := range projects {
 		files := fileTree(c, seq)
-		for _, text := range files {
-			mustParse(text)
+		for name, text := range files {
+			if strings.HasSuffix(name, ".java") {
+				mustParse(text)
+			}
 		}
 		dir := filepath.Join(root, fmt.Sprintf("p%d", k), "src")
 		cli.WriteTree(dir, files)
+		if c.DirSlash {
+			dir += "/"
+		}
 		dirs = append(dirs, dir)
 	}
 	type run struct {
@@ -1286,6 +1694,25 @@ func checkSeq(c Case) pbt.Verdict {
 		}
 	}
 	return v
+}
+
+func inPool(s string, pool []string) bool {
+	for _, p := range pool {
+		if s == p {
+			return true
+		}
+	}
+	return false
+}
+
+// isPlainName: ASCII letters only
+func isPlainName(s string) bool {
+	for _, r := range s {
+		if !(r >= 'a' && r <= 'z' || r >= 'A' && r <= 'Z') {
+			return false
+		}
+	}
+	return true
 }
 
 func mark(labels map[string]bool, cond bool, label string) {
@@ -1403,6 +1830,31 @@ func classify(c Case) pbt.Verdict {
 				mark(labels, m.Form == "otherAnnotation", "non_handler_with_other_annotation")
 			}
 			mark(labels, m.FieldBefore != "", "field_between_methods")
+			// checklist audit
+			if m.isHandler() {
+				mark(labels, isOtherVerb(m.Verb), "request_mapping_verb_"+m.Verb)
+				mark(labels, m.AnnLayout != "", "mapping_layout_"+m.AnnLayout)
+				mark(labels, m.Varargs != "", "handler_with_varargs_parameter")
+				mark(labels, m.Varargs != "" && len(m.Params) == 0, "handler_with_only_a_varargs_parameter")
+				mark(labels, m.TypeParams != "", "generic_handler_method")
+				mark(labels, m.ParamLayout != "", "parameter_layout_"+m.ParamLayout)
+				mark(labels, m.Doc, "handler_javadoc_and_comment_with_annotation_text")
+				mark(labels, inPool(m.Path, resemblingPaths), "path_resembling_syntax")
+				mark(labels, inPool(m.Path, pairLikePaths), "path_with_attribute_like_text_"+m.Form)
+				mark(labels, inPool(m.Path, blankPaths), "path_with_blank")
+				mark(labels, inPool(m.Name, extraMethodNames), "handler_name_unusual")
+				mark(labels, inPool(m.Ret, extraRetTypes), "handler_return_type_unusual")
+				for _, a := range m.After {
+					mark(labels, strings.Contains(a, "({@"), "annotation_holding_annotations_after_mapping")
+				}
+				for _, p := range m.Params {
+					mark(labels, otherParamKinds[p.Kind] != "", "parameter_"+p.Kind)
+					mark(labels, !strings.HasPrefix(p.Name, "p") || len(p.Name) > 3, "parameter_name_unusual")
+					mark(labels, isBodyKind(p.Kind) && inPool(p.Type, extraBodyTypes), "body_type_unusual")
+				}
+			} else {
+				mark(labels, m.Form == "otherAnnotation" && inPool(m.Path, lookalikeAnnotations), "non_handler_with_lookalike_annotation")
+			}
 		}
 		for _, n := range names {
 			mark(labels, n > 1 && cl.Controller != "", "overloaded_methods_in_controller")
@@ -1429,8 +1881,44 @@ func classify(c Case) pbt.Verdict {
 		mark(labels, cl.Controller != "" && cl.Dto != "", "second_class_in_controller_file_"+cl.Dto)
 		mark(labels, cl.ClassMods != "", "class_not_plain_public")
 		mark(labels, cl.Pkg == "" && cl.Controller != "", "controller_in_unnamed_package")
+		// checklist audit
+		mark(labels, cl.Kind == "enum" || cl.Kind == "annotation", "type_kind_"+cl.Kind)
+		mark(labels, inPool(cl.Stereotype, lookalikeStereotypes), "non_controller_with_lookalike_annotation")
+		if cl.Controller != "" {
+			mark(labels, inPool(cl.Pkg, extraPkgs), "controller_package_unusual")
+			mark(labels, strings.Contains(cl.Pkg, "test"), "controller_package_resembles_test_directory")
+			mark(labels, strings.Contains(cl.Pkg, "test.java"), "controller_package_test.java")
+			mark(labels, !strings.HasSuffix(strings.TrimRight(cl.Name, "X"), "Controller") && !strings.HasSuffix(strings.TrimRight(cl.Name, "X"), "Resource") || !isPlainName(cl.Name), "controller_name_unusual")
+			mark(labels, strings.Contains(strings.ToLower(cl.Name), "test"), "controller_name_with_the_word_test")
+			mark(labels, cl.CRLF, "controller_file_crlf")
+			mark(labels, cl.Edge != "", "controller_file_"+cl.Edge)
+			mark(labels, cl.LongLine > 0, fmt.Sprintf("controller_file_line_of_%d_bytes", cl.LongLine))
+			mark(labels, cl.ImportStyle != "", "controller_imports_"+cl.ImportStyle)
+			mark(labels, cl.BaseLayout != "", "class_mapping_layout_"+cl.BaseLayout)
+			mark(labels, handlers > 5, "handlers_in_one_controller>5")
+			mark(labels, handlers > 16, "handlers_in_one_controller>16")
+			mark(labels, handlers > 32, "handlers_in_one_controller>32")
+		}
 	}
 	mark(labels, c.Maven, "maven_layout")
+	mark(labels, len(c.Classes) > 6, "classes>6")
+	mark(labels, len(c.Classes) > 8, "classes>8")
+	entries := 0
+	for _, cl := range c.Classes {
+		entries += len(expected(cl))
+	}
+	mark(labels, entries > 8, "entries>8")
+	mark(labels, entries > 16, "entries>16")
+	mark(labels, entries > 32, "entries>32")
+	mark(labels, len(c.Extras) > 0, "further_files_without_class")
+	for _, x := range c.Extras {
+		mark(labels, x == ".gitignore", "further_file_gitignore")
+		mark(labels, strings.HasSuffix(x, "package-info.java"), "further_file_package_info")
+	}
+	mark(labels, c.DirSlash, "directory_with_trailing_slash")
+	mark(labels, c.CliSpelling != "", "cli_options_"+c.CliSpelling)
+	mark(labels, c.CliRel, "cli_relative_directory")
+	mark(labels, c.CliDep, "cli_explicit_dependence_file")
 	mark(labels, len(c.Prefixes) > 0, "aggregate_prefixes")
 	for _, f := range c.Flags {
 		labels["cli_flag_"+f] = true
@@ -1457,12 +1945,15 @@ func classify(c Case) pbt.Verdict {
 
 func init() {
 	pbt.SetProperty("C12")
-	pbt.Describe("rapid-generated Spring-style projects of 1-6 types, one public type per file (flat directory or mNN/src/main/java/<package>/ layout), any file order, now and then a class of the unnamed package: controllers (@RestController / @Controller, bare or with a bean name argument, then optionally @RequestMapping(\"/b\"), @RequestMapping(value = \"/b\" [, produces = ...]) or a class-level mapping that gives no path), classes without controller annotation (none, @Service, @Component, @ControllerAdvice, @RestControllerAdvice, @FeignClient ..., now and then with a class-level @RequestMapping) and interfaces whose methods nevertheless carry mapping annotations, handlers with @Get/@Post/@Put/@DeleteMapping with path (also \"\" and a path without leading slash; paths and base paths drawn from a plain pool, from spellings of the URI-template family - \"{id}\", \"{id}/lines/{line}\", \"{id}/edit\", \"items/{id}\", \"{id:[0-9]+}\", \"{id:[0-9]{1,3}}\", \"{a},{b}\", \"${api.orders}\", \"{*rest}\", \"/**\", \"/Orders({id})\", \"(all)\", \"[x]\", trailing slash - or composed of 1-3 segments, each a literal, a template variable (plain, with pattern, catch-all, ${property} placeholder) or a mix of both, with or without leading and trailing slash, in every mapping form and at class level), without path (bare, (), or only produces=/consumes=... pairs) and with value = \"/p\", @RequestMapping(value = \"/p\", method = RequestMethod.X | X by static import | {RequestMethod.X}) with the pairs in either order and a further pair first, in the middle or last, 0-4 parameters (plain, @PathVariable with and without name, @RequestParam(...), @RequestHeader, @Valid, @RequestBody with and without @Valid / final / (required = false) in both orders, at any position), further annotations before and after the mapping annotation (@ResponseBody, @ResponseStatus(..), @PreAuthorize(..), @ApiOperation(value = ..) ...), further type annotations before, between and after controller annotation and class-level mapping, non-handler methods (plain, @Override, @MessageMapping & co., now and then with a @RequestBody parameter) and annotated fields interleaved, overloaded handler names, two handlers with the same verb and path, handler bodies with calls, lambdas, an anonymous class or annotated locals, extends/implements clauses (also of an interface of the project), a second package-private class before or after the controller in its file, optional field and constructor, modifiers other than public, annotations and signature on one line, two layouts. Every file is validated with the shipped parser (a rejection aborts the run as a harness bug). Oracle: list of (verb, base+path, body type without blanks, package, class, method) by construction, compared as a multiset with JavaApiApp.AnalysisPath fed by the identifier and full passes as cmd/api.go does (sub-check api) and with coca_reporter/apis.json of `coca analysis` + `coca api -f [-c] [-s] [-a PREFIX] [-r PKG]` (sub-check cli; api.csv must show the entries of apis.json row by row, those under PREFIX with -a); metamorphic clause: the entries of every controller are identical in the whole project, alone, and in random sub-projects with other file orders; sub-check seq: 2-4 scans of the whole project and of sub-projects one after the other in one process without resetting package state: every scan returns the list of the project scanned and no list returned earlier changes; FilterApiByPrefix on the returned list keeps exactly the entries under the prefix, everything for the empty prefix, and does not change the list it is given. Non-trivial = at least one controller with and one without class-level base path in the project; distinct = hash of the description.",
-		"not generated (ambiguous expected value or outside the quantifier): bare class-level @RequestMapping, method-level @RequestMapping without method=, controller annotation after the class-level mapping, nested and local classes, handlers inherited from interfaces, several @RequestBody parameters, path= instead of value=, array-valued paths, several verbs in method={..}, path constants and concatenations, fully qualified annotation names, paths whose Java literal needs an escape (quote, backslash: the expected text would depend on reading the literal or its source text)",
+	pbt.Describe("rapid-generated Spring-style projects of 1-6 types, one public type per file (flat directory or mNN/src/main/java/<package>/ layout), any file order, now and then a class of the unnamed package: controllers (@RestController / @Controller, bare or with a bean name argument, then optionally @RequestMapping(\"/b\"), @RequestMapping(value = \"/b\" [, produces = ...]) or a class-level mapping that gives no path), classes without controller annotation (none, @Service, @Component, @ControllerAdvice, @RestControllerAdvice, @FeignClient ..., now and then with a class-level @RequestMapping) and interfaces whose methods nevertheless carry mapping annotations, handlers with @Get/@Post/@Put/@DeleteMapping with path (also \"\" and a path without leading slash; paths and base paths drawn from a plain pool, from spellings of the URI-template family - \"{id}\", \"{id}/lines/{line}\", \"{id}/edit\", \"items/{id}\", \"{id:[0-9]+}\", \"{id:[0-9]{1,3}}\", \"{a},{b}\", \"${api.orders}\", \"{*rest}\", \"/**\", \"/Orders({id})\", \"(all)\", \"[x]\", trailing slash - or composed of 1-3 segments, each a literal, a template variable (plain, with pattern, catch-all, ${property} placeholder) or a mix of both, with or without leading and trailing slash, in every mapping form and at class level), without path (bare, (), or only produces=/consumes=... pairs) and with value = \"/p\", @RequestMapping(value = \"/p\", method = RequestMethod.X | X by static import | {RequestMethod.X}) with the pairs in either order and a further pair first, in the middle or last, 0-4 parameters (plain, @PathVariable with and without name, @RequestParam(...), @RequestHeader, @Valid, @RequestBody with and without @Valid / final / (required = false) in both orders, at any position), further annotations before and after the mapping annotation (@ResponseBody, @ResponseStatus(..), @PreAuthorize(..), @ApiOperation(value = ..) ...), further type annotations before, between and after controller annotation and class-level mapping, non-handler methods (plain, @Override, @MessageMapping & co., now and then with a @RequestBody parameter) and annotated fields interleaved, overloaded handler names, two handlers with the same verb and path, handler bodies with calls, lambdas, an anonymous class or annotated locals, extends/implements clauses (also of an interface of the project), a second package-private class before or after the controller in its file, optional field and constructor, modifiers other than public, annotations and signature on one line, two layouts. Checklist audit, each shape behind its own draw: @RequestMapping(method = RequestMethod.PATCH | HEAD | OPTIONS | TRACE) in the forms with method=; packages of one segment, with _ $ digits and non-ASCII letters, very long, a prefix or longer variant of another package, with segments that resemble the directories coca's file filter treats specially (test.java, testdata, tests) or equal an annotation name; class names with the words Test / Tests at the beginning, in the middle and in lower case at the end (Contest, Attests; names ending in Test or Tests stay out: the file filter drops *Test.java), with $ _ digits, non-ASCII letters, one letter, very long; method and parameter names of one letter, with $ _ non-ASCII, very long, equal to value / method / path / RequestMapping / GET / requestBody; qualified, inner and annotated body types (com.acme.dto.OrderDto, Order.Dto, List<@Valid OrderDto>), further return types, generic methods (<T>, <T extends Comparable<T>>), a variable-arity last parameter that is no body (plain or @RequestParam, also as the only parameter), parameters with @RequestPart / @RequestAttribute / @CookieValue / @ModelAttribute; non-handler methods with annotations whose names contain, begin or end with the name of a mapping annotation (@PatchMapping, @GetMappings, @MyGetMapping, @GetMappingDoc, @RequestMappingInfo, @XRequestMapping, @Mapping, @Getmapping) and classes without controller annotation that carry @RestControllerEndpoint, @ControllerEndpoint, @Controllers, @NotAController; an annotation that holds annotations after the mapping; enums (with annotated methods) and annotation types (elements value / path / method) as further types; mapping annotations at method and class level with blanks inside the parentheses and around commas, over several lines with a line comment, with block comments between the tokens; one parameter per line, blanks inside empty parentheses; Javadoc and comments with annotation-like text before and between annotations and signature, in handler bodies (string literal, line and block comment); paths that resemble syntax (/users/@me, /search?method=GET&value={v}, /a//b, /value=/x, http://host:8080/abs, /RequestMethod.GET) and, for api and seq, paths with blanks and a tab; files with CRLF line ends, without final newline, with leading blank lines, with trailing blank lines, with a comment line of 5000 or 70000 bytes; the Spring imports as wildcard, one by one, both and repeated, or absent; 7-14 classes in a project and 6-40 methods in one class now and then; further files that hold no class (.gitignore with the usual patterns plus files it ignores, README.md with a controller in a code fence, pom.xml, *.java.txt, *.java.bak, *.javax, *.kt, application.properties, package-info.java with a package annotation); the directory passed with a trailing slash; sub-check cli: options as -p DIR, --path DIR or --path=DIR, the directory relative to the working directory, -d with the default dependence file. Every file is validated with the shipped parser (a rejection aborts the run as a harness bug). Oracle: list of (verb, base+path, body type without blanks, package, class, method) by construction, compared as a multiset with JavaApiApp.AnalysisPath fed by the identifier and full passes as cmd/api.go does (sub-check api) and with coca_reporter/apis.json of `coca analysis` + `coca api -f [-c] [-s] [-a PREFIX] [-r PKG]` (sub-check cli; api.csv must show the entries of apis.json row by row, those under PREFIX with -a); metamorphic clause: the entries of every controller are identical in the whole project, alone, and in random sub-projects with other file orders; sub-check seq: 2-4 scans of the whole project and of sub-projects one after the other in one process without resetting package state: every scan returns the list of the project scanned and no list returned earlier changes; FilterApiByPrefix on the returned list keeps exactly the entries under the prefix, everything for the empty prefix, and does not change the list it is given. Non-trivial = at least one controller with and one without class-level base path in the project; distinct = hash of the description.",
+		"not generated (ambiguous expected value or outside the quantifier): bare class-level @RequestMapping, method-level @RequestMapping without method=, controller annotation after the class-level mapping, nested and local classes, handlers inherited from interfaces, several @RequestBody parameters, path= instead of value=, array-valued paths, several verbs in method={..}, path constants and concatenations, fully qualified annotation names, paths whose Java literal needs an escape (quote, backslash: the expected text would depend on reading the literal or its source text), a @RequestBody on a variable-arity parameter, several top-level types with mapping annotations in one file, classes named *Test / *Tests and directories src/test/java and testData (coca's file filter treats them as test code; the statement does not say), source files matched by .gitignore, files with a byte order mark (the shipped parser rejects them)",
+		"a method annotated with an annotation that is not one of Get/Post/Put/Delete/RequestMapping contributes nothing, whatever its name resembles (@PatchMapping included: the statement lists the five annotations); a class annotated with anything but @RestController / @Controller contributes nothing",
+		"the HTTP verb of @RequestMapping(method = RequestMethod.X) is X for every constant of RequestMethod (GET, HEAD, POST, PUT, PATCH, DELETE, OPTIONS, TRACE)",
 		"paths with a comma are generated for the sub-checks api and seq only: the sub-check cli also reads api.csv, which coca writes with ',' as column separator and without quoting, and api.csv is not part of the statement",
 		"body type and nothing else is compared modulo white space",
 		"base path and method path are concatenated as written (no slash normalisation): the statement says 'base path followed by the method's path'",
 		"FilterApiByPrefix / `coca api -a PREFIX` (named in the property's anchors) is taken to keep exactly the entries whose URI starts with PREFIX",
+		"a `coca` sub-process that does not end within the time limit of the harness (120 s) is counted (cli_timeout) and the case skipped: the statement does not speak of running time",
 		"package state is reset with the verif hooks before every project scan of the sub-checks api and cli, so that a scan corresponds to a fresh process; sub-check seq resets once per case")
 	pbt.Register("api", 300, 2000, genCase, func(c Case) pbt.Verdict { return check(c, false) })
 	pbt.Register("seq", 100, 600, genSeqCase, checkSeq)
